@@ -127,3 +127,47 @@ def type_rules(report, ybin, sc, lean, rng, n, seed):
             first = re.sub(r"'[^']*'", "'..'", msg[0])[:60] if msg else "accepted"
             report.violation(f"type-rules:verdict-differs:model-{'accepts' if m['ok'] else 'rejects'}:{first}", replay,
                              "the validator and the model of the type rules disagree on this type")
+
+
+ESYMS = ["a", "b", "c", "ab", "x1", "zz", "ok", "on", "A", "a_b", "1x"]
+EBASES = [None, None, None, "int8", "uint8", "int16", "uint16", "int32", "uint32", "int64", "uint64", "size", "float32", "string", "bool"]
+ERANGE = {"int8": (-128, 127), "uint8": (0, 255), "int16": (-2**15, 2**15 - 1), "uint16": (0, 2**16 - 1), "int32": (-2**31, 2**31 - 1), "uint32": (0, 2**32 - 1),
+          "int64": (-2**63, 2**63 - 1), "uint64": (0, 2**64 - 1), "size": (0, 2**64 - 1)}
+
+
+def enum_rules(report, ybin, sc, lean, rng, n, seed):
+    """random `!enum` / `!flags` definitions (symbols, values at the edges of the base type's range, non-integer base types)
+    judged by `yardl validate` and by `TypeRules.enumOk`; symbols are lower-case so that they stay distinct in UPPER_SNAKE_CASE"""
+    root = sc.path("enum-rules")
+    os.makedirs(root, exist_ok=True)
+    open(os.path.join(root, "_package.yml"), "w").write("namespace: Ru\n")
+    for i in range(n):
+        base = rng.choice(EBASES)
+        flags = rng.random() < 0.4
+        lo, hi = ERANGE.get(base or "int32", (-5, 5))
+        k = rng.choice([1, 2, 3, 4])
+        syms = rng.sample(ESYMS[:8], k) if rng.random() < 0.7 else [rng.choice(ESYMS) for _ in range(k)]
+        vals = []
+        for s in syms:
+            v = rng.choice([0, 1, 2, 4, 8, lo, hi, rng.randint(lo, hi)]) if rng.random() < 0.8 else rng.choice([lo - 1, hi + 1])
+            vals.append([s, v])
+        if rng.random() < 0.6:
+            seen = set()
+            for e in vals:          # mostly distinct values
+                while e[1] in seen:
+                    e[1] = e[1] + 1 if e[1] < hi else e[1] - 3
+                seen.add(e[1])
+        txt = "E: " + ("!flags" if flags else "!enum") + "\n" + (f"  base: {base}\n" if base else "") + "  values:\n" + "".join(f"    {json.dumps(s)}: {v}\n" for s, v in vals)
+        open(os.path.join(root, "model.yml"), "w").write(txt)
+        rc, out, err = vlib.yardl(ybin, root, "validate")
+        text = out + err
+        m = lean.ask({"op": "enum_rules", "base": base, "values": vals})
+        report.case(distinct_key=("enum-rules", txt))
+        report.count("enum-rules.accepted" if rc == 0 else "enum-rules.rejected")
+        replay = {"seed": seed, "index": i, "model": txt, "lean": m, "rc": rc, "output": text[-1200:], "theorem_or_correspondence": "TypeRules.enumOk vs yardl validate"}
+        if "panic" in text or "goroutine " in text or rc not in (0, 1):
+            report.violation("enum-rules:crash", replay, "the validator crashed on an enum definition")
+        elif "ok" not in m:
+            report.violation("model:enum-rules", replay, "no-failing-input-found")
+        elif m["ok"] != (rc == 0):
+            report.violation(f"enum-rules:verdict-differs:model-{'accepts' if m['ok'] else 'rejects'}", replay, "the validator and the model of the enum rules disagree on this definition")
